@@ -52,6 +52,7 @@ func Main(args []string) int {
 	only := fs.String("only", "", "restrict the campaign to types containing this substring")
 	replay := fs.String("replay", "", "hex encoding to decode with -only type (replay of a reported case)")
 	shard := fs.String("shard", "0/1", "i/n: run the campaign only on the types whose index is i modulo n")
+	deadline := fs.Int("deadline", 900, "seconds after which the remaining types get the sampled (quick) campaign")
 	if err := fs.Parse(args); err != nil {
 		return 2
 	}
@@ -59,8 +60,9 @@ func Main(args []string) int {
 	thorough = *tier == "thorough"
 	tp := tierParams{vals: 1, perClass: 2, flipBytes: 12, flipCap: 4096, budget: 700 * time.Millisecond, mutBudget: 1200 * time.Millisecond}
 	if thorough {
-		tp = tierParams{vals: 3, perClass: 0, flipBytes: 0, flipCap: 3000, truncAll: true, budget: 12 * time.Second, mutBudget: 25 * time.Second}
+		tp = tierParams{vals: 3, perClass: 0, flipBytes: 0, flipCap: 3000, truncAll: true, budget: 8 * time.Second, mutBudget: 15 * time.Second}
 	}
+	quickTp := tierParams{vals: 1, perClass: 2, flipBytes: 12, flipCap: 4096, budget: 700 * time.Millisecond, mutBudget: 1200 * time.Millisecond}
 
 	want := map[string]bool{}
 	for _, g := range strings.Split(*groups, ",") {
@@ -134,6 +136,9 @@ func Main(args []string) int {
 		if ti%shN != shI {
 			continue
 		}
+		if time.Since(t0) > time.Duration(*deadline)*time.Second {
+			tp = quickTp
+		}
 		campaign(t, byType[t], tp, pool, uint64(ti))
 	}
 	fmt.Fprintf(os.Stderr, "[done] %d lines in %.1fs\n", w.N, time.Since(t0).Seconds())
@@ -150,7 +155,7 @@ func campaign(typ string, cs []*capture, tp tierParams, pool *leafPool, stream u
 	var nmut int
 	for vi, c := range cs {
 		roundTrip(c)
-		if vi >= tp.vals {
+		if vi >= tp.vals || (vi >= 1 && len(c.enc) > 10000) {
 			continue
 		}
 		nmut++
@@ -191,6 +196,9 @@ func campaign(typ string, cs []*capture, tp tierParams, pool *leafPool, stream u
 			if o.res == "acc" || o.panic_ {
 				ev["hex"] = hexCap(m.data, 6000)
 				ev["detail"] = o.detail
+			}
+			if o.panic_ {
+				ev["site"] = siteOf(o.detail)
 			}
 			emit("mut", ev)
 			k := m.cls + "|" + m.path
@@ -263,6 +271,9 @@ func roundTrip(c *capture) {
 		ev["detail"] = detail
 		ev["hex"] = hexCap(c.enc, 6000)
 	}
+	if pan {
+		ev["site"] = siteOf(detail)
+	}
 	emit("rt", ev)
 }
 
@@ -299,6 +310,11 @@ func flips(c *capture, tp tierParams, rng *rand.Rand) {
 			o := c.try(b)
 			if o.panic_ {
 				pan++
+				if _, ok := ev["site"]; !ok {
+					ev["site"] = siteOf(o.detail)
+					ev["hex"] = hexCap(b, 6000)
+					ev["detail"] = o.detail
+				}
 			}
 			if o.res == "rej" {
 				rej++
@@ -348,6 +364,10 @@ func truncs(c *capture, tp tierParams, rng *rand.Rand) {
 		o := c.try(c.enc[:l])
 		if o.panic_ {
 			pan++
+			if _, ok := ev["site"]; !ok {
+				ev["site"] = siteOf(o.detail)
+				ev["hex"] = hexCap(c.enc[:l], 6000)
+			}
 		}
 		if o.res == "rej" {
 			rej++
